@@ -372,10 +372,23 @@ Fixpoint unpack (v : value) {struct v} : value :=
   | _ => v
   end.
 
+(* results that have to be printed go out in groups of seven bytes / characters (Coq prints long numerals slowly):
+     VList [VInt (-7); VInt len; VList groups]  bytes;  VList [VInt (-8); VInt len; VList groups]  a string below 256;
+     VList [VInt (-9); VList code points]  any other string *)
+Fixpoint groups7 (fuel : nat) (l : list N) : list value :=
+  match fuel with
+  | O => []
+  | S k => match l with
+           | [] => []
+           | _ => VInt (Z.of_N (undigits_be 8 (firstn 7 l))) :: groups7 k (skipn 7 l)
+           end
+  end.
+
 Fixpoint pack (v : value) {struct v} : value :=
   match v with
-  | VStr s => VList [VInt (-1); vnat (length s); VInt (Z.of_N (undigits_be CPB s))]
-  | VBytes b => VList [VInt (-2); vnat (length b); VInt (Z.of_N (undigits_be 8 b))]
+  | VStr s => if forallb (fun c => (c <? 256)%N) s then VList [VInt (-8); vnat (length s); VList (groups7 (length s) s)]
+              else VList [VInt (-9); VList (map (fun c => VInt (Z.of_N c)) s)]
+  | VBytes b => VList [VInt (-7); vnat (length b); VList (groups7 (length b) b)]
   | VList l => VList ((fix go (l : list value) : list value := match l with [] => [] | x :: t => pack x :: go t end) l)
   | _ => v
   end.
